@@ -210,9 +210,9 @@ theorem release_sequential (s : Sys) (ta tb : Tcb) (ha : (s.side .A).tcb = some 
     rw [ph4]
     dsimp only
     rw [st7]
-  · exact ((((((FinRun.step (op := .close .A) (.refl _) trivial st1).trans r12).trans r23).trans
-      (.step (op := .close .B) (.refl _) trivial st4)).trans r45).trans r56).trans
-      (.step (op := .tick .A (TIME_WAIT + 1)) (.refl _) trivial st7)
+  · exact ((((((FinRun.step (op := .close .A) (.refl _) trivial st1).trans (FinRun.of_plain r12)).trans
+      (FinRun.of_plain r23)).trans (.step (op := .close .B) (.refl _) trivial st4)).trans (FinRun.of_plain r45)).trans
+      r56).trans (.step (op := .tick .A (TIME_WAIT + 1)) (.refl _) trivial st7)
   · show (s6.side .A).submitted = _
     rw [h6sa, h5sa, h4sa, h3sa, h2sa, h1sa]
   · show (s6.side .B).submitted = _
